@@ -19,36 +19,36 @@
 EXTENDS Constraints, Json, IOUtils
 Recs == ndJsonDeserialize(IOEnv.QV_RECS)
 NR == Len(Recs)
-VARIABLES c, ph, s, optv
-vars == <<c, ph, s, optv>>
+VARIABLES c, ph, s, optv, k     \* k: the chosen record's polynomials, canonicalised ONCE when the record is chosen and
+                                 \* carried in the state (a definition such as FormOf == TLCEval(..) is re-evaluated on use)
+vars == <<c, ph, s, optv, k>>
 R == Recs[c]
-FormOf == TLCEval([i \in 1..NR |-> FromRaw(Recs[i].spin_tgt, Recs[i].form)])
-FOf == TLCEval([i \in 1..NR |-> FromRaw(Recs[i].spin_src, Recs[i].f)])
-E(a) == Eval(R.spin_tgt, FormOf[c], a)
-Fv(xs) == Eval(R.spin_src, FOf[c], xs)
+E(a) == Eval(R.spin_tgt, k.form, a)
+Fv(xs) == Eval(R.spin_src, k.f, xs)
 X == ToSet(R.X)                                   \* problem labels
-MapFs == TLCEval([i \in 1..NR |-> LET mp == Recs[i].map IN
-                    [l \in {mp[q][1] : q \in 1..Len(mp)} |-> mp[CHOOSE q \in 1..Len(mp) : mp[q][1] = l][2]]])
-MapF == MapFs[c]
+MapOfRec(r) == LET mp == r.map IN [l \in {mp[q][1] : q \in 1..Len(mp)} |-> mp[CHOOSE q \in 1..Len(mp) : mp[q][1] = l][2]]
+MapF == k.map
 FormVars == ToSet(R.fvars)                        \* all variables of the form (ints, or label names for "self")
 ConvX(a) == {l \in X : l \in DOMAIN MapF /\ MapF[l] \in a}
 \* constraint polynomials, canonicalised once per record
-CP == TLCEval([i \in 1..NR |-> [q \in 1..Len(Recs[i].cons) |-> FromRaw(Recs[i].spin_src, Recs[i].cons[q].P)]])
-GA == TLCEval([i \in 1..NR |-> [q \in 1..Len(Recs[i].cons) |-> FromRawB(Recs[i].cons[q].ga)]])
-GO == TLCEval([i \in 1..NR |-> [q \in 1..Len(Recs[i].cons) |-> [j \in 1..Len(Recs[i].cons[q].ops) |-> FromRawB(Recs[i].cons[q].ops[j])]]])
-ConsHolds(q, xs) == LET k == R.cons[q] IN
-    IF k.mode = "cmp" THEN Holds(k.rel, Eval(R.spin_src, CP[c][q], xs))
-    ELSE GateHolds(k.gate, k.geq, GA[c][q], GO[c][q], xs)
+Cache(r) == [form |-> FromRaw(r.spin_tgt, r.form), f |-> FromRaw(r.spin_src, r.f), map |-> MapOfRec(r),
+             cp |-> [q \in 1..Len(r.cons) |-> FromRaw(r.spin_src, r.cons[q].P)],
+             ga |-> [q \in 1..Len(r.cons) |-> FromRawB(r.cons[q].ga)],
+             go |-> [q \in 1..Len(r.cons) |-> [j \in 1..Len(r.cons[q].ops) |-> FromRawB(r.cons[q].ops[j])]]]
+NoCache == [form |-> Zero, f |-> Zero, map |-> << >>, cp |-> << >>, ga |-> << >>, go |-> << >>]
+ConsHolds(q, xs) == LET kk == R.cons[q] IN
+    IF kk.mode = "cmp" THEN Holds(kk.rel, Eval(R.spin_src, k.cp[q], xs))
+    ELSE GateHolds(kk.gate, kk.geq, k.ga[q], k.go[q], xs)
 FeasibleX(xs) == \A q \in 1..Len(R.cons) : ConsHolds(q, xs)
 FeasSet == {xs \in SUBSET X : FeasibleX(xs)}
 Spread == Max({Fv(xs) : xs \in SUBSET X}) - Min({Fv(xs) : xs \in SUBSET X})
 Antecedent == FeasSet # {} /\ \A q \in 1..Len(R.cons) : R.cons[q].lam > Spread
-Init == c = 0 /\ ph = 0 /\ s = {} /\ optv = <<FALSE, 0>>
-Next == \/ ph = 0 /\ ph' = 1 /\ c' \in 1..16 /\ UNCHANGED <<s, optv>>
-        \/ ph = 1 /\ ph' = 2 /\ c' \in {i \in 1..NR : i % 16 = c % 16} /\ UNCHANGED <<s, optv>>
-        \/ ph = 2 /\ ph' = 3 /\ c' = c /\ s' = s
+Init == c = 0 /\ ph = 0 /\ s = {} /\ optv = <<FALSE, 0>> /\ k = NoCache
+Next == \/ ph = 0 /\ ph' = 1 /\ c' \in 1..16 /\ UNCHANGED <<s, optv, k>>
+        \/ ph = 1 /\ ph' = 2 /\ UNCHANGED <<s, optv>> /\ \E i \in {j \in 1..NR : j % 16 = c % 16} : c' = i /\ k' = Cache(Recs[i])
+        \/ ph = 2 /\ ph' = 3 /\ c' = c /\ s' = s /\ k' = k
               /\ optv' = IF R.raised = "" /\ Antecedent THEN <<TRUE, Min({Fv(xs) : xs \in FeasSet})>> ELSE <<FALSE, 0>>
-        \/ ph = 3 /\ ph' = 4 /\ c' = c /\ optv' = optv /\ optv[1] /\ s' \in SUBSET FormVars
+        \/ ph = 3 /\ ph' = 4 /\ c' = c /\ optv' = optv /\ k' = k /\ optv[1] /\ s' \in SUBSET FormVars
 Spec == Init /\ [][Next]_vars
 Clause(name, cond) == cond \/ (PrintT(<<"QVVIOL", name, c, R.id>>) /\ FALSE)
 Case == ph = 3
